@@ -24,7 +24,8 @@ type arrival struct {
 	gid  uint64
 	site string
 	name string // non-empty for goroutines started through Sim.Go
-	wake chan struct{}
+	wake chan int
+	sel  int  // >0: the goroutine asks for a choice in [0, sel) (rewritten select)
 	exit bool // goroutine started through Sim.Go finished
 }
 
@@ -34,7 +35,8 @@ type Task struct {
 	Name   string
 	gid    uint64
 	Site   string
-	wake   chan struct{}
+	wake   chan int
+	sel    int
 	parked bool
 	prio   int
 	Steps  int
@@ -172,10 +174,28 @@ func (s *Sim) Yield(site string) {
 		return
 	}
 	raceDisable()
-	w := make(chan struct{})
+	w := make(chan int, 1)
 	s.arrivals <- arrival{gid: gid, site: site, wake: w}
 	<-w
 	raceEnable()
+}
+
+// Sel is the scheduling point in front of a rewritten select (simrt.SelHook):
+// the scheduler draws which case is polled first when it releases the goroutine.
+func (s *Sim) Sel(site string, n int) int {
+	if s.free.Load() {
+		return 0
+	}
+	gid := goid()
+	if gid == s.rootGid {
+		return 0
+	}
+	raceDisable()
+	w := make(chan int, 1)
+	s.arrivals <- arrival{gid: gid, site: site, wake: w, sel: n}
+	v := <-w
+	raceEnable()
+	return v
 }
 
 // Go starts a named workload goroutine under the scheduler.
@@ -183,7 +203,7 @@ func (s *Sim) Go(name string, f func()) {
 	go func() {
 		if !s.free.Load() {
 			raceDisable()
-			w := make(chan struct{})
+			w := make(chan int, 1)
 			s.arrivals <- arrival{gid: goid(), site: "start:" + name, name: name, wake: w}
 			<-w
 			raceEnable()
@@ -226,6 +246,7 @@ func (s *Sim) admit(a arrival) {
 	}
 	t.Site = a.site
 	t.wake = a.wake
+	t.sel = a.sel
 	t.parked = true
 	s.SiteHits[a.site]++
 }
@@ -463,8 +484,14 @@ func (s *Sim) Run(main func()) Outcome {
 			t := c.task
 			t.parked = false
 			t.Steps++
-			s.note(t.Name, t.Site)
-			close(t.wake)
+			v := 0
+			if t.sel > 1 {
+				v = s.C.Draw("select", t.sel)
+				s.note(t.Name, fmt.Sprintf("%s prefer=%d", t.Site, v))
+			} else {
+				s.note(t.Name, t.Site)
+			}
+			t.wake <- v
 		} else {
 			e := s.envs[c.env]
 			s.note("env:"+e.Name(), "")
@@ -486,7 +513,7 @@ func (s *Sim) Release() {
 		for _, t := range s.all {
 			if t.parked {
 				t.parked = false
-				close(t.wake)
+				t.wake <- 0
 				n++
 			}
 		}
